@@ -213,6 +213,10 @@ func (g G) drawSP(i int, o worldOpts, hardURL bool) SPCfg {
 		c.CertUse = ""
 	}
 	c.CertWrap = g.chance(fmt.Sprintf("sp%d.wrap", i), 30)
+	c.DecoyNS = g.chance(fmt.Sprintf("sp%d.decoy", i), 10)
+	if g.chance(fmt.Sprintf("sp%d.vu", i), 12) {
+		c.ValidUntil = g.pick(fmt.Sprintf("sp%d.vuv", i), "1999-01-01T00:00:00Z", "2001-06-01T00:00:00Z", "2099-01-01T00:00:00Z", "2010-01-01T00:00:00Z")
+	}
 	if g.chance(fmt.Sprintf("sp%d.enc", i), 30) {
 		// a second KeyDescriptor for encryption (another key pair), before or after the signing one
 		c.EncKey, c.EncFirst = KeyEnc, g.chance(fmt.Sprintf("sp%d.encfirst", i), 50)
